@@ -1,13 +1,85 @@
 import Gimli.Drv.Util
+import Gimli.Model.ConvCfi
+import Gimli.Model.ConvLine
 /-!
-C12 requests (`c12-dwarf`, `c12-frame`): the implementation side converts, writes, re-reads and
-compares semantic dumps. The Model's reply is `ok *` — it matches any `ok …` outcome ("converted"
-with an equal dump, or "failed:<error>"): the claim of `Props/C12.lean` is "error or meaning
-preserved", not which of the two.
+C12 requests.
+
+* `c12-dwarf`, `c12-frame`: the implementation side converts, writes, re-reads and compares
+  semantic dumps. The Model's reply is `ok *` — it matches any `ok …` outcome ("converted" with an
+  equal dump, or "failed:<error>"): the claim of `Props/C12.lean` is "error or meaning preserved",
+  not which of the two.
+* `c12-lineaddr <ins,…>`: ties `Model/ConvLine.lean` to the code. The instruction list
+  (`s<addr>` set_address, `a<d>` advance, `r` row, `e` end_sequence) is assembled into a line
+  program; the reply is the row addresses gimli reads from it and the row addresses it reads from
+  the converted and re-written program — or `failed` when the conversion ends inside a sequence
+  (`MissingLineEndSequence`).
+* `c12-cfiarith <caf> <daf> <delta> <f>`: ties `Model/ConvCfi.lean` to the code: a CIE with the
+  given alignment factors and an FDE `advance_loc4 delta; offset_extended_sf r3, f` is converted,
+  written and re-read.
 -/
 namespace Gimli.Drv.C12
+open Gimli Gimli.ConvLine Gimli.ConvCfi
 
-def handle (op : String) (_args : List String) : Option String :=
-  if op == "c12-dwarf" || op == "c12-frame" then some "ok *" else none
+def ins? (s : String) : Option Ins :=
+  if s == "r" then some .row
+  else if s == "e" then some .endSeq
+  else match s.toList with
+    | 's' :: rest => (String.ofList rest).toNat?.map .setAddress
+    | 'a' :: rest => (String.ofList rest).toNat?.map .advance
+    | _ => none
+
+def rowsStr (rs : Rows) : String :=
+  if rs.isEmpty then "-" else ",".intercalate (rs.map fun (a, e) => toString a ++ (if e then "e" else ""))
+
+/-- rows handed to the writer after the last `end_sequence`: `read_sequence` then fails with
+`MissingLineEndSequence` at the end of the program -/
+def evOpen : Bool → List Ev → Bool
+  | o, [] => o
+  | _, .row _ :: es => evOpen true es
+  | _, .endSeq _ :: es => evOpen false es
+  | o, .setAddress _ :: es => evOpen o es
+
+def tombT : Nat := 2 ^ 64 - 2
+
+def lineAddr (args : String) : Option String := do
+  let is ← (args.splitOn ",").mapM ins?
+  let evs := convert tombT 0 0 false none is
+  let inp := rowsStr (readRows tombT 0 false is)
+  if evOpen false evs then some s!"ok in={inp} failed"
+  else some s!"ok in={inp} out={rowsStr (readRows tombT 0 false (emit 0 evs))}"
+
+def errName : Err → String
+  | .wValueTooLarge => "ValueTooLarge"
+  | .wInvalidFrameCodeOffset => "InvalidFrameCodeOffset"
+  | .wInvalidFrameDataOffset => "InvalidFrameDataOffset"
+  | e => e.name
+
+def cfiArith (caf : Nat) (daf : Int) (delta : Nat) (f : Int) : String :=
+  let conv : Out (Nat × Int) := do
+    let _ ← narrowU8 caf
+    let _ ← narrowI8 daf
+    let off' ← advance caf 0 delta
+    let off ← dataOffset daf f
+    pure (off', off)
+  match conv with
+  | .ok (off', off) =>
+    let wr : Out (Nat × Int) := do
+      let d ← if off' = 0 then pure 0 else factoredCodeDelta 0 off' caf
+      let f' ← factoredDataOffset off daf
+      pure (d, f')
+    (match wr with
+     | .ok (d, f') => s!"ok d={d} f={f'}"
+     | .err e => s!"ok write:{errName e}"
+     | _ => "panic")
+  | .err e => s!"ok conv:{errName e}"
+  | _ => "panic"
+
+def handle (op : String) (args : List String) : Option String :=
+  if op == "c12-dwarf" || op == "c12-frame" then some "ok *"
+  else match op, args with
+    | "c12-lineaddr", [is] => lineAddr is
+    | "c12-cfiarith", [caf, daf, delta, f] => do
+        some (cfiArith (← caf.toNat?) (← daf.toInt?) (← delta.toNat?) (← f.toInt?))
+    | _, _ => none
 
 end Gimli.Drv.C12
